@@ -20,6 +20,7 @@ typedef void (*avg_fn)(uint8_t *, uint32_t, uint8_t *, uint32_t, uint8_t *, uint
 
 typedef void (*cdef_fn)(uint8_t *, uint16_t *, int32_t, const uint16_t *, int32_t, int32_t, int32_t, int32_t, int32_t, int32_t, int32_t);
 typedef int32_t (*cdefdir_fn)(const uint16_t *, int32_t, int32_t *, int32_t);
+typedef void (*qfp_fn)(const int32_t *, intptr_t, const int16_t *, const int16_t *, const int16_t *, const int16_t *, int32_t *, int32_t *, const int16_t *, uint16_t *, const int16_t *, const int16_t *);
 
 #include "kern_items.inc"
 
@@ -163,6 +164,41 @@ static void run_cdefdir(const Item *it, int vi) {
     free(img);
 }
 
+/* forward quantizer "fp" (8-bit path): coefficients over the whole int16 range the transforms can produce, quantizer steps from the
+   smallest to the largest table entry; the interesting region is |coeff| + round near INT16_MAX, where the SIMD code saturates */
+static void run_qfp(const Item *it, int vi) {
+    static const int qs[][2] = {{4, 4}, {8, 9}, {100, 120}, {256, 300}, {512, 600}, {1024, 1100}, {1336, 1828}};
+    int nmax = 1024; int32_t *co = al(4 * nmax), *q0 = al(4 * nmax), *q1 = al(4 * nmax), *d0 = al(4 * nmax), *d1 = al(4 * nmax);
+    int16_t *scan = al(2 * nmax), *iscan = al(2 * nmax);
+    int big = strstr(it->name, "32x32") || strstr(it->name, "64x64");
+    for (int n = big ? 1024 : 16; n <= 1024; n *= 4) for (int perm = 0; perm < 2; perm++) for (int qi = 0; qi < 7; qi++) for (int pat = 0; pat < 8; pat++) {
+        for (int i = 0; i < n; i++) { int j = perm ? (i ^ 1) : i; scan[i] = (int16_t)j; iscan[j] = (int16_t)i; }
+        int16_t zbin[8], rnd_[8], quant[8], qsh[8], deq[8];
+        for (int k = 0; k < 8; k++) { int q = qs[qi][k != 0]; deq[k] = (int16_t)q; quant[k] = (int16_t)((1 << 16) / q > 32767 ? 32767 : (1 << 16) / q); rnd_[k] = (int16_t)((64 * q) >> 7); zbin[k] = (int16_t)(q / 2); qsh[k] = 1 << 12; }
+        for (int i = 0; i < n; i++) {
+            int v;
+            switch (pat) {
+            case 0: v = 0; break;
+            case 1: v = (int)(rnd() % 64) - 32; break;
+            case 2: v = (int)(rnd() % 65535) - 32767; break;
+            case 3: v = (i == 0) ? 32640 : (int)(rnd() % 9) - 4; break;                 /* flat full-range block: DC at the top of the range */
+            case 4: v = (i == 0) ? -32640 : 0; break;
+            case 5: v = 32767 - (int)(rnd() % 700); if (rnd() & 1) v = -v; break;       /* everything near the int16 limit */
+            case 6: v = (i % 7 == 0) ? 32767 : (i % 11 == 0) ? -32767 : (int)(rnd() % 2048) - 1024; break;
+            default: v = (int)(rnd() % 4096) - 2048; break;
+            }
+            co[i] = v;
+        }
+        memset(q0, 0x55, 4 * nmax); memset(q1, 0x55, 4 * nmax); memset(d0, 0x55, 4 * nmax); memset(d1, 0x55, 4 * nmax);
+        uint16_t e0 = 7777, e1 = 8888;
+        ((qfp_fn)it->c)(co, n, zbin, rnd_, quant, qsh, q0, d0, deq, &e0, scan, iscan);
+        ((qfp_fn)it->v[vi])(co, n, zbin, rnd_, quant, qsh, q1, d1, deq, &e1, scan, iscan);
+        ncall++;
+        if (e0 != e1 || memcmp(q0, q1, 4 * n) || memcmp(d0, d1, 4 * n)) { mismatch(it, vi, "quantize_fp", n, qi, pat); goto out; }
+    }
+out: free(co); free(q0); free(q1); free(d0); free(d1); free(scan); free(iscan);
+}
+
 int main(int argc, char **argv) {
     unsigned long long flags = argc > 1 ? strtoull(argv[1], NULL, 16) : 0;
     const char *only = argc > 2 ? argv[2] : NULL;
@@ -184,6 +220,7 @@ int main(int argc, char **argv) {
             case 10: run_resid16(it, vi); break;
             case 14: run_cdef(it, vi); break;
             case 15: run_cdefdir(it, vi); break;
+            case 16: run_qfp(it, vi); break;
             }
         }
     }
